@@ -14,7 +14,7 @@
 		uint64_t tmp;						\
 		int neg = 0;    					\
 									\
-		if (Py_SIZE(py_long) < 0) {				\
+		if (_PyLong_Sign(py_long) < 0) {			\
 			neg = 1;					\
 			py_long_new = PyObject_CallMethod(py_long, "__neg__", NULL); \
 			Py_DECREF(py_long);				\
@@ -47,7 +47,7 @@
 		uint64_t tmp;						\
 		int neg = 0;    					\
 									\
-		if (Py_SIZE(py_long) < 0) {				\
+		if (_PyLong_Sign(py_long) < 0) {			\
 			neg = 1;					\
 			py_long_new = PyObject_CallMethod(py_long, "__neg__", NULL); \
 			Py_DECREF(py_long);				\
